@@ -24,8 +24,8 @@ def run(c):
     drv = c.driver(DRIVER)
     binary = c.go_build(HARNESS)
     if binary and drv:
-        # every 8th case is a live trial: quick 168 + 24, thorough 2800 + 400
-        rc, out = c.go_run(binary, [f"-n={c.n(192, 3200)}"], timeout=2400)
+        # every 8th case is a live trial: quick 112 + 16, thorough 1400 + 200 (each costs >= 1 s of real time; 24 run concurrently)
+        rc, out = c.go_run(binary, [f"-n={c.n(128, 1600)}"], timeout=3000)
         c.harness_ok(rc, out, "verif-c31")
         c.correspond(out, drv)
 
@@ -54,6 +54,7 @@ META = {
              "real code shows it (oracle sig sender-sleeps-through-batch-timeout)."),
     "note": ("Partial: real-time bounds are measured, not proved (1 s timer, 10 s budget); sendLoop's reconnect/deadline logic and TCP are "
              "exercised end-to-end only; interleavings inside a critical section and the Go memory model are trusted. The model is the code "
-             "after fixes/C31-swap-timeout-wakes-sender.diff; on the unfixed tree the check reports the violation."),
+             "after the fix: commit 26657431 (= fixes/C31-swap-timeout-wakes-sender.diff); on its parent the check reports "
+             "VIOLATION sig=sender-sleeps-through-batch-timeout with a replay on the real code."),
     "design_ref": "DESIGN.md §6 C31",
 }
